@@ -17,6 +17,7 @@ import (
 	"strconv"
 	"strings"
 	"sync"
+	"sync/atomic"
 	"syscall"
 	"testing"
 	"testing/synctest"
@@ -39,6 +40,7 @@ type vfTask struct {
 	rel    chan struct{}
 	emit   func(m map[string]any)
 	term   func() bool
+	saw    *atomic.Int32 // tasks that have observed cancellation
 }
 
 func (t *vfTask) Ready() <-chan struct{} { return t.readyC }
@@ -48,6 +50,8 @@ func (t *vfTask) Run(ctx context.Context) error {
 	for {
 		select {
 		case <-ctx.Done():
+			t.saw.Add(1)
+			t.emit(map[string]any{"ev": "tsaw", "i": t.i})
 			t.emit(map[string]any{"ev": "tobs", "i": t.i, "term": t.term()})
 			if t.beh == "slow" {
 				t.emit(map[string]any{"ev": "hold", "i": t.i})
@@ -152,11 +156,12 @@ func vfServeScenario(rec *vfRec, sc map[string]any, sockPath string) {
 	defer notifier.Close()
 
 	srv := NewServer(NewContext(nil, nil, nil))
+	var saw atomic.Int32
 	var tasks []Task
 	var stubs []*vfTask
 	for i, b := range behs {
 		st := &vfTask{i: i + 1, beh: b.(string), readyC: make(chan struct{}), cmd: make(chan string), rel: make(chan struct{}),
-			emit: emit, term: srv.t.terminate}
+			emit: emit, term: srv.t.terminate, saw: &saw}
 		stubs = append(stubs, st)
 		tasks = append(tasks, st)
 	}
@@ -185,7 +190,19 @@ func vfServeScenario(rec *vfRec, sc map[string]any, sockPath string) {
 		}
 		emit(map[string]any{"ev": "signal", "term": kind != "hup"})
 		signalled = true
+		// The signal is delivered while the driver holds the terminator's mutex: recording the signal kind needs
+		// that mutex, so a task that observes cancellation before the driver lets go has provably been cancelled
+		// before the terminate / reload decision was recorded. "tgate false" is written before the mutex is
+		// released, so in a correct run every "tsaw" line comes after it.
+		srv.t.mu.Lock()
+		emit(map[string]any{"ev": "tgate", "held": true})
+		before := saw.Load()
 		sigC <- s
+		for i := 0; i < 20 && saw.Load() == before; i++ {
+			time.Sleep(500 * time.Microsecond)
+		}
+		emit(map[string]any{"ev": "tgate", "held": false})
+		srv.t.mu.Unlock()
 	}
 	send := func(i int, c string) {
 		select {
